@@ -65,7 +65,7 @@ SPEC = {
     "C02": dict(params_q=BYTES_Q, params_t=BYTES_T, ladder=BYTES_LADDER, bounds=BYTES_BOUNDS, outside=OUT_COMMON, r_thorough=R_THOROUGH,
                 optsets=("full", "default"), prim="^VerifC33(StringReadAny|StringReadBytesAny|ReadBool|NatReadExactTag|PrimReadAny)$"),
     "C03": dict(prim="^VerifC33(TL2Size|TL2ParseSizeAny|StringReadTL2Any|StringTL2RoundTrip|BitVector)$", params_q=BYTES_Q, params_t=BYTES_T, ladder=BYTES_LADDER + VAL_LADDER, bounds=dict(BYTES_BOUNDS, **VAL_BOUNDS), outside=OUT_COMMON, r_thorough=R_THOROUGH),
-    "C04": dict(params_q=BYTES_Q, params_t=BYTES_T, ladder=BYTES_LADDER, bounds=BYTES_BOUNDS, outside=OUT_COMMON + ["JSON equality leg (see C05)"], r_thorough=R_THOROUGH),
+    "C04": dict(params_q=BYTES_Q, params_t=BYTES_T, ladder=BYTES_LADDER, bounds=BYTES_BOUNDS, outside=OUT_COMMON + ["JSON equality leg for types with float leaves"], r_thorough=R_THOROUGH),
     "C08": dict(prim="^VerifC33(StringReadAny|StringReadBytesAny|StringReadTL2Any|TL2ParseSizeAny|Skip|PrimReadAny)$", params_q=dict(BYTES_Q, slack8=8), params_t=dict(BYTES_T, slack8=16), ladder=[{"slack8": 0}, {"slack8": 0, "slack": 4}], bounds=BYTES_BOUNDS,
                 outside=OUT_COMMON + ["JSON readers and result transcoders"], r_thorough=R_THOROUGH),
     "C09": dict(params_q=dict(BYTES_Q, slack=4, slack1=0), params_t=dict(BYTES_T, slack=8, slack1=4), ladder=[{"slack": 0, "slack1": 0}] + VAL_LADDER,
